@@ -14,6 +14,9 @@ import (
 
 type ObsC02 struct {
 	Sticky int // bindings that happened while a reservation for that identity existed
+	// never policy: the IP an identity was bound with stays its IP until an administrator releases it or a reload drops it
+	lastIP   map[string]string
+	released map[string]bool
 }
 
 func (o *ObsC02) AfterStep(x *Exec) *vcore.Failure { return nil }
@@ -26,6 +29,24 @@ func poolPrefixOf(wl *WL) string {
 }
 
 func (o *ObsC02) AfterOp(x *Exec, i int, op Op, res *OpResult) *vcore.Failure {
+	if o.lastIP == nil {
+		o.lastIP, o.released = map[string]string{}, map[string]bool{}
+	}
+	if op.K == "apirelease" && res.Entry != nil && res.HTTPCode == 200 {
+		o.released[res.Entry.IP] = true
+	}
+	if res.BoundNow && res.Pod != nil {
+		p := res.Pod
+		wl := x.wl(p)
+		if wl.Kind != "dp" && wl.PolicyNum() == 2 && len(wl.Ranges) == 0 && len(p.Payload) == 1 {
+			if prev, ok := o.lastIP[p.Key]; ok && prev != p.Payload[0] && !o.released[prev] && inConfig(x.ConfInForce, prev) && !x.everDropped(prev) {
+				return vcore.Failf("c02:never_lost", "pod identity %s (policy never) was bound with %s before and nobody released that IP, but it is "+
+					"now bound with %s", p.Key, prev, p.Payload[0])
+			}
+			o.lastIP[p.Key] = p.Payload[0]
+			delete(o.released, p.Payload[0])
+		}
+	}
 	if res.Pod == nil || res.Concurrent || (op.K != "filter" && op.K != "sched" && op.K != "bind") {
 		return nil
 	}
